@@ -31,6 +31,12 @@ CLAIMED = {
  "C07": ("static evaluation of constant tables: registration-table alias binding, SSA return-flow check that the registered escape is exactly html.EscapeString of the stringified input, and evaluation of every hand-written escape table's arms with html.UnescapeString inside the checker",
          "Decides the table/wiring half for every input string: both names reach the same routine, the routine is the trusted library escape with nothing applied afterwards, and the fallback table is complete, correct and well-formed. Stringification of non-string values is value-level and not decided.",
          "html.EscapeString / html.UnescapeString of the Go standard library are trusted. " + COMMON_NOTE, "§2 C07"),
+ "C08": ("static evaluation and cross-checking of constant tables (precedence switch vs. specification classes vs. evaluation switch vs. parser word-operator tests and multi-word assembly vs. tokenizer operator characters) + path-sensitive search on SSA for short-circuit and single-branch evaluation + structural lint of the print-tag NAME shortcut",
+         "Decides ONLY the shape-visible clauses: the operator tables agree and are ordered as specified, and/or short-circuit, ?: evaluates one branch, and print-tag content reaches the parser through the shared expression tokenizer unless it is a valid identifier. The heart of the property — that the precedence-climbing code implements the table (associativity/precedence of the parse result), arithmetic results, unary-minus scope — is algorithmic/value-level and NOT decided (on this tree 1 + 2 * 3 * 4 still evaluates to 28: found by reading, invisible to these rules).",
+         "The specification classes are transcribed from the property statement into the checker. One frozen exception: the dead `||` spelling. " + COMMON_NOTE, "§2 C08"),
+ "C09": ("path-sensitive searches on SSA over the renderers: tracked truthy-edge state in IfNode.Render, else/body reachability and length-test edges in the for renderer, must-pass-through of a deferred restore for every loop-variable binding (with correlated field tests), byte-offset/rune lint for string iteration, provenance check of SetNode's binding",
+         "Decides the control-flow clauses visible in the shape of the renderers on every path: exactly one if-branch, else iff nothing iterates, loop variables scoped and restored, characters numbered by position, set binds in the caller's scope. The seven counter formulas, truthiness table values and range construction are value-level and NOT decided.",
+         COMMON_NOTE, "§2 C09"),
  "C10": ("typed-AST lint: every lookup in a name → block-body map that reaches a branch condition is decided on the comma-ok result, never on len()/nil of the body; SSA dominance check that both block maps are copied into the parent's context before the parent renders",
          "Decides one necessary condition of block substitution for every template set: presence of a definition is membership (an empty override is honoured), and the hand-over of blocks and parentBlocks along extends is complete on every path. Which definition wins along longer chains, parent() chains and nested blocks are substitution semantics over data and are NOT decided.",
          "Weak clause of a behavioural property, stated as such. " + COMMON_NOTE, "§2 C10"),
@@ -46,6 +52,9 @@ CLAIMED = {
  "C18": ("mutation lint with freshness analysis on SSA: every mutating operation (element store, map update/delete, append, copy destination, sort.*, slices.Sort*, reflect Set*/Swapper/Copy) in render-reachable functions must act on a container that is provably fresh (allocation, allocating helper summary, fresh-at-every-call-site parameter) or engine-internal; containers derived from interface{}-typed parameters, evaluation results or their elements are violations",
          "Decides for every template and every context shape that twig's own code never writes through caller-derived values, and that the caller's top-level map is copied rather than adopted. Mutation by user callbacks and by methods of user types reached through attribute access is out of twig's hands and not decided.",
          "Freshness is intra-procedural plus return/parameter summaries over static calls; a container whose origin is neither provably fresh nor data-derived counts as engine-internal. " + COMMON_NOTE, "§2 C18"),
+ "C19": ("sibling cross-check: the implementations registered as length/count/first/last/slice/reverse (filters, functions, built-in arm) and the for renderer are resolved from the registration tables and linted for byte-based string measures (len, s[i], computed s[a:b], Value.Len() where String is admitted, range keys used as ordinals); constant-folding of optional-argument defaults against later branch conditions",
+         "Decides two clauses relating sibling implementations: one unit of length (runes) for strings across length/first/last/slice/reverse/for, and an omitted optional argument is not represented by a value that has its own meaning when supplied. ALL other equations of the property (idempotence, involution, permutation, join/split, default, merge, keys, the slice index rules themselves, decimal arithmetic) quantify over values and are NOT decided.",
+         "Weak clause of a value-level property, stated as such. " + COMMON_NOTE, "§2 C19"),
  "C20": ("typed-AST lint (complete key literals, StructField.Index never indexed) + SSA backward-slice purity check of every store into a cache entry's lookup fields + classification of every write to the cache map (delete / statistics-only read-modify-write under the same key / pure insert) + identity of the reflect.Value that keys and serves the access",
          "Decides that a cache hit returns what a miss would compute, for every history and any number of distinct (type, name) pairs: the cache and its eviction are unobservable. reflect's FieldByName/MethodByName semantics are trusted.",
          COMMON_NOTE, "§2 C20"),
